@@ -345,8 +345,11 @@ impl MzMLReader {
                                     _ => None,
                                 };
                                 spectrum.precursors.push(precursor);
-                                precursor = Precursor::default();
                             }
+                            // nothing read inside one <precursor> may reach the next one
+                            precursor = Precursor::default();
+                            iso_window_lo = None;
+                            iso_window_hi = None;
                             Some(State::Spectrum)
                         }
                         (Some(State::Scan), b"scan") => Some(State::Spectrum),
@@ -375,6 +378,11 @@ impl MzMLReader {
                                 (false, _) => {}
                             }
                             spectrum = RawSpectrum::default_with_file_id(self.file_id);
+                            // nothing read inside one <spectrum> may reach the next one
+                            precursor = Precursor::default();
+                            iso_window_lo = None;
+                            iso_window_hi = None;
+                            noise_array.clear();
                             None
                         }
                         _ => state,
